@@ -7,6 +7,9 @@ import time
 VERIF = os.path.dirname(os.path.dirname(os.path.abspath(__file__)))
 
 
+EVDIR = os.environ.get("FV_EVIDENCE_DIR") or os.path.join(VERIF, "evidence")  # developer override only
+
+
 class Report:
     def __init__(self, pid, tier="quick", level="other"):
         self.pid = pid
@@ -74,7 +77,7 @@ class Report:
             else:
                 new.append(v)
         wall = time.time() - self.t0
-        os.makedirs(os.path.join(VERIF, "evidence", "replay"), exist_ok=True)
+        os.makedirs(os.path.join(EVDIR, "replay"), exist_ok=True)
         n_ob = len(self.obligations)
         n_ok = sum(1 for o in self.obligations if o["ok"])
         cov = {
@@ -108,7 +111,7 @@ class Report:
             "wall_s": round(wall, 2),
             "violations": len(new),
         }
-        with open(os.path.join(VERIF, "evidence", self.pid + ".json"), "w") as fh:
+        with open(os.path.join(EVDIR, self.pid + ".json"), "w") as fh:
             json.dump(ev, fh, indent=1, sort_keys=False)
         print("%s: %d obligations, %d discharged, %d functions analysed, %.1fs"
               % (self.pid, n_ob, n_ok, len(self.analysed_fns), wall))
@@ -116,7 +119,7 @@ class Report:
             print("KNOWN-FINDING: property=%s %s [%s]" % (self.pid, desc, kk))
         rc = 0
         for idx, v in enumerate(new):
-            path = os.path.join(VERIF, "evidence", "replay", "%s-%d.json" % (self.pid, idx))
+            path = os.path.join(EVDIR, "replay", "%s-%d.json" % (self.pid, idx))
             with open(path, "w") as fh:
                 json.dump(v, fh, indent=1)
             print("VIOLATION property=%s replay=%s" % (self.pid, path))
